@@ -225,6 +225,10 @@ def _build_enum(es, env: Env):
     return cls
 
 
+_dyn_modules: collections.deque = collections.deque()
+_DYN_MODULES_KEPT = 512
+
+
 def _build_model(ms, env: Env, open_models: dict):
     name = ms["name"]
     if name in env.classes:
@@ -236,6 +240,11 @@ def _build_model(ms, env: Env, open_models: dict):
         mod = types.ModuleType(modname)
         sys.modules[modname] = mod
         env.module = mod
+        # a module is needed while its models are being introspected (forward references), not for the whole run: keep the
+        # latest ones only, or a thorough run holds hundreds of thousands of modules and their classes
+        _dyn_modules.append(modname)
+        if len(_dyn_modules) > _DYN_MODULES_KEPT:
+            sys.modules.pop(_dyn_modules.popleft(), None)
         mod.__dict__.update({"dataclass": dataclasses.dataclass, "field": dataclasses.field, "typing": typing,
                              "NamedTuple": typing.NamedTuple, "TypedDict": typing.TypedDict,
                              "NotRequired": typing.NotRequired, "Required": typing.Required})
